@@ -215,9 +215,14 @@ def triage(unit, gen, vr, unit_cfg):
             fn = region_of(ln) or fn
         if cls == "termination" and (label is None or kind == "hint") and prim is not None:
             # Verus reports the loop / function, not the `decreases` clause: use the label of that clause
-            for l2 in range(prim["line_start"], min(prim["line_start"] + 80, len(lines)) + 1):
+            cand = list(range(prim["line_start"], min(prim["line_start"] + 80, len(lines)) + 1))
+            if "continue" in msg or "end of loop" in msg:
+                # reported at a `continue` / loop end: the clause precedes it -> nearest preceding decreases of the same function
+                cand = list(range(prim["line_start"], max(prim["line_start"] - 200, 0), -1)) + cand
+            for l2 in cand:
                 o2 = lines[l2 - 1].origin
-                if o2[0] == "tpl" and o2[3] in ("loop", "contract") and "decreases" in lines[l2 - 1].text:
+                if o2[0] == "tpl" and o2[3] in ("loop", "contract") and "decreases" in lines[l2 - 1].text \
+                        and getattr(lines[l2 - 1], "fid", None) == getattr(lines[prim["line_start"] - 1], "fid", None):
                     label, kind = o2[2], o2[3]
                     break
         if cls == "precondition" and prim is not None and re.search(r"\b(unimplemented|unreachable|panic|todo)!\s*\(", "".join(x.get("text", "") for x in prim.get("text", []))):
